@@ -2,6 +2,7 @@
 C06 — objects on one file share one buffered state; the flush keeps all their writes.
 -/
 import SC.Lemmas.Buffer
+import SC.Lemmas.BufVisible
 namespace SC.Props
 open SC SC.B
 
@@ -44,6 +45,37 @@ theorem C06_serialized_flush_decides_from_entry (s : B.State) (oi : Nat) (o : B.
       (flushSer s oi o force).1.store o.res = some ((mergeInto s oi o e.contents).1.root o).toBase) :=
   ⟨fun hm => ⟨(flushSer_readonly s oi o force e he hm).2.1, (flushSer_readonly s oi o force e he hm).1⟩,
    fun hm hc hmerge => (flushSer_writes s oi o force e hb he hm hc hmerge).2.1⟩
+
+/-- C06 (and C05 "reads see all earlier buffered writes"), serialized strategy, as ONE statement
+about a write followed by a read: object `oi` saves while buffered (buffer not over capacity).
+Nothing is raised, no file is written, and the next buffered load through ANY object `oj` bound to
+the same file — `oi` itself or another — merges exactly the content `oi` saved; when that load
+returns, `oj`'s content IS that content (same structure, identical scalars, same key sets),
+whatever `oj` held before.  `.wf` = no duplicate keys, which Python dicts cannot have. -/
+theorem C06_serialized_write_visible (s : B.State) (oi oj : Nat) (o oJ : B.Obj)
+    (hs : s.strategy = .serialized)
+    (ho : s.objs[oi]? = some o) (hb : s.isBuffered o = true)
+    (hoj : s.objs[oj]? = some oJ) (hbj : s.isBuffered oJ = true) (hres : oJ.res = o.res)
+    (hfit : ¬ (saveSer (s.register oi) o).size > (saveSer (s.register oi) o).capacity) :
+    (save s oi).2 = none ∧ (save s oi).1.stores = s.stores ∧
+    load (save s oi).1 oj = mergeInto ((save s oi).1.register oj) oj oJ (s.root o).toBase ∧
+    ((load (save s oi).1 oj).2 = none → (s.root o).toBase.wf = true → (s.root oJ).wf = true →
+      (s.root o).toBase ≠ .leaf .null →
+      Eqv ((load (save s oi).1 oj).1.root oJ) (s.root o).toBase) :=
+  serialized_write_visible s oi oj o oJ hs ho hb hoj hbj hres hfit
+
+/-- the same for the shared-memory strategy: after the buffered save through `oi`, a buffered load
+through ANY object on the file makes it address the very container `oi` saved, content untouched -/
+theorem C06_memory_write_visible (s : B.State) (oi oj : Nat) (o oJ : B.Obj)
+    (hs : s.strategy = .sharedMemory)
+    (ho : s.objs[oi]? = some o) (hb : s.isBuffered o = true)
+    (hoj : s.objs[oj]? = some oJ) (hbj : s.isBuffered oJ = true) (hres : oJ.res = o.res)
+    (hfit : ¬ (saveMem (s.register oi) o).size > (saveMem (s.register oi) o).capacity) :
+    (save s oi).2 = none ∧ (save s oi).1.stores = s.stores ∧
+    (load (save s oi).1 oj).2 = none ∧
+    ∃ oJ', (load (save s oi).1 oj).1.objs[oj]? = some oJ' ∧ oJ'.cell = o.cell ∧
+      (load (save s oi).1 oj).1.root oJ' = s.root o :=
+  memory_write_visible s oi oj o oJ hs ho hb hoj hbj hres hfit
 
 /-- the scenario that used to lose a write (reader flushed first), on the machine: two objects on
 one file in one backend-wide context; o1 only reads and is popped first; the file still gets w. -/
